@@ -7,6 +7,7 @@ import (
 	"fmt"
 	"os"
 	"path/filepath"
+	"sort"
 	"strings"
 	"sync"
 	"time"
@@ -278,6 +279,69 @@ func checkC14(c *Ctx) {
 		}
 	}
 	c.Note("%d help/version/unknown-option scenarios (inside and outside a repository) compared with Cli!RunKind", len(modes))
+
+	// shape layer: the same scenarios under the logging git must be behaviours of Proto -- in particular
+	// gitconfig is not even consulted for a setting the command line decides, and --help / --version
+	// never start a scan (ProtoTrace; rejection is DRIFT)
+	{
+		e := &c10Env{c: c, env: env, fake: buildFakeGit(c), home: dir}
+		var prs []protoRun
+		var pmu sync.Mutex
+		var pwg sync.WaitGroup
+		psem := make(chan struct{}, 16)
+		add := func(id, wd string, args, envx, kinds []string) {
+			pwg.Add(1)
+			psem <- struct{}{}
+			go func() {
+				defer pwg.Done()
+				defer func() { <-psem }()
+				fr := e.runUnderFake(id, wd, args, nil, envx)
+				if fr.TimedOut {
+					return
+				}
+				pmu.Lock()
+				prs = append(prs, protoRun{ID: id, Args: args, Kinds: kinds, Events: fr.Events, Exit: fr.Exit, Stdout: fr.Stdout})
+				pmu.Unlock()
+			}()
+		}
+		for i, m := range modes {
+			var args []string
+			for _, a := range m.Args {
+				switch a.O {
+				case "help":
+					args = append(args, "--help")
+				case "version":
+					args = append(args, "--version")
+				case "bogus":
+					args = append(args, "--no-such-option")
+				default:
+					args = append(args, renderOpt(a))
+				}
+			}
+			wd, env2, kinds := repoDir, []string(nil), []string{m.Kind}
+			if !m.InRepo {
+				wd, env2 = outside, []string{"GIT_CEILING_DIRECTORIES=" + filepath.Dir(outside)}
+				if m.Kind == "error" {
+					kinds = []string{"scan", "error"} // Cli!RunKind folds "no repository" into "error"
+				}
+			}
+			add(fmt.Sprintf("mode%d", i), wd, append([]string{"--no-progress"}, args...), env2, kinds)
+		}
+		step := 1
+		if quick(c) {
+			step = 1 + len(scns)/120
+		}
+		for i := 0; i < len(scns); i += step {
+			kinds := []string{"scan"}
+			if scns[i].Err {
+				kinds = []string{"scan", "error"}
+			}
+			add(fmt.Sprintf("scn%d", i), repoDir, renderArgs(scns[i].Args), scns[i].cfgEnv(), kinds)
+		}
+		pwg.Wait()
+		sort.Slice(prs, func(i, j int) bool { return prs[i].ID < prs[j].ID })
+		reportProto(c, "command-line scenarios", prs)
+	}
 
 	// documented equivalent spellings
 	eq := [][2][]string{
